@@ -129,15 +129,20 @@ void eb_norm_sim(eb_t *r, const eb_t *t, int n) {
 		fb_inv_sim(a, (const fb_t *)a, n);
 
 		for (int i = 0; i < n; i++) {
-			fb_copy(r[i]->x, t[i]->x);
-			fb_copy(r[i]->y, t[i]->y);
-			if (!eb_is_infty(t[i])) {
+			if (eb_is_infty(t[i])) {
+				eb_set_infty(r[i]);
+			} else {
+				fb_copy(r[i]->x, t[i]->x);
+				fb_copy(r[i]->y, t[i]->y);
 				fb_copy(r[i]->z, a[i]);
+				r[i]->coord = t[i]->coord;
 			}
 		}
 #if EB_ADD == PROJC || !defined(STRIP)
 		for (int i = 0; i < n; i++) {
-			eb_norm_imp(r[i], r[i], 1);
+			if (!eb_is_infty(r[i])) {
+				eb_norm_imp(r[i], r[i], 1);
+			}
 		}
 #endif /* EB_ADD == PROJC */
 	}
